@@ -8,6 +8,7 @@ import (
 	"github.com/gogo/status"
 
 	"google.golang.org/grpc"
+	"google.golang.org/grpc/codes"
 )
 
 func UnaryServerInterceptor(
@@ -24,6 +25,11 @@ func UnaryServerInterceptor(
 	st, ok := status.FromError(err)
 	if !ok {
 		code := extgrpc.GetGrpcCode(err)
+		if code == codes.OK {
+			// An error cannot travel under the OK status (a status with
+			// code OK carries no details, and denotes success).
+			code = codes.Unknown
+		}
 		st = status.New(code, err.Error())
 		enc := errors.EncodeError(ctx, err)
 		st, err = st.WithDetails(&enc)
